@@ -20,7 +20,9 @@ from musicxml.xmlelement.xmlelement import XMLElement  # noqa: E402
 from mc.ref import xsd as R  # noqa: E402
 from mc.ref.automata import NFA  # noqa: E402
 
-sys.setrecursionlimit(20000)
+HARNESS_RECURSION_LIMIT = 20000
+LIB_RECURSION_LIMIT = 700
+sys.setrecursionlimit(HARNESS_RECURSION_LIMIT)
 
 CLASSES = {c.__name__: c for n, c in vars(X).items()
            if n.startswith('XML') and inspect.isclass(c) and issubclass(c, XMLElement) and c is not XMLElement}
@@ -210,8 +212,13 @@ def call(fn, *args, **kw):
     o = Outcome()
     buf = io.StringIO()
     signal.setitimer(signal.ITIMER_REAL, CALL_TIMEOUT)
+    wlist = None
+    # library calls run under a moderate recursion limit (the harness itself needs a high one for deep object graphs):
+    # an unbounded recursion in the library then fails fast as RecursionError instead of eating seconds and memory
+    sys.setrecursionlimit(LIB_RECURSION_LIMIT)
     try:
-        with contextlib.redirect_stdout(buf), contextlib.redirect_stderr(buf):
+        with contextlib.redirect_stdout(buf), contextlib.redirect_stderr(buf), warnings.catch_warnings(record=True) as wlist:
+            warnings.simplefilter('always')
             o.value = fn(*args, **kw)
     except Hang:
         o.ok = False
@@ -237,7 +244,12 @@ def call(fn, *args, **kw):
         o.frames = tuple(frames)
     finally:
         signal.setitimer(signal.ITIMER_REAL, 0)
+        sys.setrecursionlimit(HARNESS_RECURSION_LIMIT)
     o.output = buf.getvalue()
+    if wlist:
+        # a warning reaches the user's standard error under the default filters: it counts as output
+        o.output += ''.join('warning:%s:%s\n' % (w.category.__name__, str(w.message)[:80]) for w in wlist
+                            if not issubclass(w.category, (SyntaxWarning, DeprecationWarning, ResourceWarning)))
     return o
 
 
@@ -353,7 +365,30 @@ def apply(st, op, child_mode='opaque'):
         o = call(copy.deepcopy, el)
     elif k == 'Ax':  # out-of-alphabet additions
         what = op[1]
-        if what == 'foreign':
+        if what == 'others':
+            # a child that already belongs to ANOTHER live element of the same type is offered: whatever the outcome,
+            # a failing call must leave that other element alone
+            other = fresh(type_of(el), True) if type_of(el) else None
+            arg = child(op[2], child_mode)
+            if other is not None and call(other.add_child, arg).ok:
+                before = (serialise(other)[:3], [id(c) for c in other.get_children(ordered=True)])
+                st.made.append(None)
+                o = call(el.add_child, arg)
+                if not o.ok:
+                    r = call(other.remove, arg)
+                    o2 = call(other.add_child, arg) if r.ok else r
+                    after = (serialise(other)[:3], [id(c) for c in other.get_children(ordered=True)])
+                    if not r.ok or not o2.ok or before != after:
+                        o.side = 'other-element-changed'
+                    st.outcomes.append(o)
+                    return o
+                # accepted: the child now sits under two parents - outside what is judged here; undo for the model
+                st.made[-1] = arg
+                st.model.append(len(st.made) - 1)
+                st.outcomes.append(o)
+                return o
+            arg = child(op[2], child_mode)
+        elif what == 'foreign':
             arg = child(op[2], child_mode)
         elif what == 'nonelement':
             arg = 'text'
